@@ -24,9 +24,9 @@ func init() {
 			"fitness finite, non-negative, <= 1e12", "genomes above 60 nodes / 250 genes are retired from operator histories"},
 		Cases: func(tier string) int {
 			if tier == "quick" {
-				return 160
+				return 960
 			}
-			return 2400
+			return 4800
 		},
 		Run:      runC01,
 		Required: []string{"op.add_node.ok", "op.add_link.ok", "op.mate_multipoint.ok", "op.mate_multipoint_avg.ok", "op.mate_singlepoint.ok", "epochs"},
